@@ -300,6 +300,10 @@ var smtPrelude = `(declare-datatypes ((Slice 0)) (((mkslice (sref Int) (slen Int
 // Query renders a complete SMT-LIB query whose satisfiability decides `goal`
 // (goal holds under the background iff the query is unsat).
 func (s *Script) Query(negGoal Term, wantModel bool, cutDecls, cutAsserts int) string {
+	return s.QueryExcluding(negGoal, wantModel, cutDecls, cutAsserts, nil)
+}
+
+func (s *Script) QueryExcluding(negGoal Term, wantModel bool, cutDecls, cutAsserts int, excluded map[int]bool) string {
 	decls, asserts := s.Decls, s.Asserts
 	if cutDecls >= 0 && cutDecls <= len(decls) {
 		decls = decls[:cutDecls]
@@ -321,7 +325,10 @@ func (s *Script) Query(negGoal Term, wantModel bool, cutDecls, cutAsserts int) s
 		b.WriteString(d)
 		b.WriteByte('\n')
 	}
-	for _, a := range asserts {
+	for i, a := range asserts {
+		if excluded[i] {
+			continue
+		}
 		b.WriteString(a)
 		b.WriteByte('\n')
 	}
